@@ -13,7 +13,9 @@ def encode_timedelta(obj):
 
 def encode_datetime(obj):
     units, _ = np.datetime_data(obj.dtype)
-    reference = obj[0]
+    # the first valid element of the flattened array (any shape, NaT tolerated), the epoch if there is none
+    valid = obj.ravel()[~np.isnat(obj.ravel())]
+    reference = valid[0] if valid.size else np.datetime64(0, units)
 
     encoding = {"reference": str(reference), "units": units}
     encoded = (obj - reference).astype("int64").tolist()
